@@ -11,7 +11,10 @@ C01_setstage_nested_memory_shares_cpuset C01_setstage_nested_memory_within_allow
 C01_links_of_render C01_renderCheck_sound
 C01_remove_empty_rule C01_remove_empty_fixpoint C01_remove_empty_idempotent C01_remove_empty_root_removed C01_remove_empty_preserves
 C01_remove_empty_preserves_set_clauses C01_remove_empty_preserves_nodeset_decomposition C01_remove_empty_typed C01_remove_empty_keeps_nonempty C01_pipeline_typing C01_pipeline_sets_through_merging C01_total_memory_stage C01_total_memory_clause C01_group_depth_stage
-C01_pipeline_compose""".split()]
+C01_pipeline_compose
+C01_symmetric_walk C01_symmetric_rule C01_symmetric_leaf C01_symmetric_ignores_other_children C01_symmetric_meaning C01_pipeline_symmetric
+C01_total_memory_dump_clause C01_total_memory_fields C01_pipeline_dump_clauses C01_pipeline_no_new_object C01_pipeline_unique
+C01_sets_through_level_merging C01_merge_step_sets C01_pipeline_sets_through_level_merging C01_pipeline_pu_leaf_and_root C01_pipeline_numa_exists""".split()]
 TRUSTED = ["C01_discovery_by_insertion is about the model of hwloc___insert_object_by_cpuset (lean/Hw/Topo/Insert.lean); that model is tied to the "
            "code by the C02 history engine, which predicts the exact tree after every hwloc_topology_insert_group_object call (new object = "
            "Group; the type-order table used for other new types is generated from the source by tools/gen_restrict.py but exercised only "
@@ -30,6 +33,10 @@ TRUSTED = ["C01_discovery_by_insertion is about the model of hwloc___insert_obje
            "are absent and the comparisons are skipped (evidence counter setstage.stage_absent).  In C01_pipeline_compose the discovery phases between "
            "the set stage and remove_empty (reconnect, PCI / I/O / Misc / annotate back ends, hwloc_filter_bridges) are NOT modelled: they enter as an "
            "arbitrary decoration (I/O and Misc subtrees, Group attributes) under the typing hypothesis typedT, which the engine evaluates on every rm_before dump",
+           "the C01_symmetric_* / C01_pipeline_symmetric theorems are about the model of hwloc_propagate_symmetric_subtree on the four-list tree "
+           "(lean/Hw/Topo/StageSymmetric.lean); it is tied to the code on every load of the set-stage engine: the harness writes the public "
+           "symmetric_subtree, depth and arity of every normal object after hwloc_topology_load (Y lines) and the driver must reproduce them from "
+           "the tree of the `final` hook dump (depth = level index in connectLevels); without the second hook the comparison is skipped (okY absent)",
            "harness/dump.h as a faithful reading of the topology through the public API; lean/Driver/Topo.lean as its parser",
            "PARTIAL: that hwloc's loaders (synthetic, XML, Linux, x86, core pipeline) establish WF is NOT proved; it is checked by the proved oracle on every loaded topology of the run"]
 ASSUMPTIONS = ["sources: generated synthetic strings, bundled XML files, bundled Linux and x86 snapshots, and sources derived from these with random custom "
@@ -39,9 +46,9 @@ ASSUMPTIONS = ["sources: generated synthetic strings, bundled XML files, bundled
                "machine that runs the check: a replay is exact on the same machine only); the live machine is not loaded natively"]
 MODELLED = ("modelled: the well-formedness predicate (every clause of the property) and its consequences; "
             "modelled and proved: hwloc___insert_object_by_cpuset and the set pipeline of hwloc_discover (root fixup, propagate_nodeset, fixup_sets, "
-            "remove_unused_sets), remove_empty, propagate_total_memory, hwloc_set_group_depth, and their composition with level merging and level connection "
+            "remove_unused_sets), remove_empty, propagate_total_memory, hwloc_propagate_symmetric_subtree, hwloc_set_group_depth, and their composition with level merging and level connection "
             "(link / level clauses of the rendered dump); not modelled: the back ends, hwloc__attach_memory_object, the I/O / Misc discovery phases and "
-            "hwloc_filter_bridges between the set stage and remove_empty, hwloc_propagate_symmetric_subtree in the pipeline; "
+            "hwloc_filter_bridges between the set stage and remove_empty; "
             "not modelled: the loaders themselves (exercised: each loaded topology is dumped and judged; hwloc_topology_check() must not abort)")
 
 def run_engines(tier, seed):
